@@ -59,6 +59,10 @@ CLAIMS = {
   "Deductive: PSyDataTrans.get_unique_region_name (generated names end in ':r<n>' with n a per-key counter that is then incremented, other counters untouched: names pairwise distinct; user-supplied names verbatim, counters untouched) and merge_in_default_options (fresh dict, user options win, caller's dict untouched) verified on their real bodies; the effective excluded_node_types of every PSyData-family transformation (class attribute resolved through the MRO of the real class ASTs on every run) contains Return. The region walk of RegionTrans.validate is covered only by a bounded run-time contract on the real transformations. Known findings (open): ExtractTrans family does not exclude Return; EXIT/CYCLE in a code block leave a region.",
   "Assumed: options.get / tree and name accessors as hooks. NOT under contract: RegionTrans.validate itself, PSyDataNode.lower_to_language_level (PreStart/PostEnd sequence and nesting).",
   TECH + "; class-attribute resolution over the extracted hierarchy; bounded run-time contract for the region walk"),
+ "C29": ("proof",
+  "Deductive, rely/guarantee over a ghost file system: the real body of CodedKern.rename_and_write is verified for ANY interference at its file-system calls (other runs may create files and write the files they created; os.open(O_CREAT|O_EXCL) atomic): with 'multiple' the kernel is written to a file that did not exist at entry and that this call created, no other file is created, none removed; with 'single' the call returns normally only if the file it created or read back holds exactly its own code, else GenerationError; an unmodified/inlined kernel touches nothing. CodedKern._new_name inserts the tag before the suffix (string VCs). This replaces interleaving enumeration: the rely quantifies over all interleavings of any number of runs. Known finding (open, replayed by monkey-patching os.write): a 'single' run reading a file another run has created but not yet written fails although the kernels are identical.",
+  "Assumed: POSIX atomicity of O_EXCL; _rename_psyir sets the module name via _new_name; writer/limiter are functions of the tree. NOT proved: termination of the retry loop under continual interference; file-name/module-name agreement is only checked by a bounded run-time contract on real runs (labelled bounded). No pause-point hook in /repo was needed.",
+  TECH + "; rely/guarantee with a ghost file system havocked (monotonically) at each file-system call"),
 }
 
 NA = {
